@@ -287,8 +287,11 @@ MANIFEST = {
             "heap records it at that moment (stale_backward_safe_partial, via C01) — so wrong gradients can only "
             "come from a heap that is itself inconsistent, which is what re-use after clearing produces. The "
             "model is compared with MyGrad on random multi-epoch histories; the oracle tapes the forward-time "
-            "input values of every recorded op and flags a successful backward through an op whose input has "
-            "changed.",
+            "input values of every recorded op and flags, at EVERY backward of the history, a success through an op "
+            "whose backward rule reads an input that has changed; 348 systematic history templates (clear, mutate, "
+            "re-use, view, backward in every order) run besides the random ones.",
     "note": "Trusted: Lean kernel, standard axioms, correspondence harness. Known findings: silent use of mutated values and a "
-            "cyclic graph (RecursionError) after clear + re-use + in-place update.",
+            "cyclic graph (RecursionError) after clear + re-use + in-place update; their signatures carry what the "
+            "history does after the clear (mutation M and/or re-use U), so that the same failure reached by another kind of "
+            "history is a new violation.",
 }
